@@ -33,6 +33,16 @@ noValue = base.noValue
 SubstrateUnderrunError = error.SubstrateUnderrunError
 
 
+def _printable(value):
+    # for log lines: octets that are no text in the declared
+    # encoding must not make a logged call fail
+    try:
+        return str(value)
+
+    except error.PyAsn1UnicodeDecodeError:
+        return repr(value)
+
+
 class AbstractPayloadDecoder(object):
     protoComponent = None
 
@@ -1191,7 +1201,7 @@ class ChoicePayloadDecoder(ConstructedPayloadDecoderBase):
         effectiveTagSet = component.effectiveTagSet
 
         if LOG:
-            LOG('decoded component %s, effective tag set %s' % (component, effectiveTagSet))
+            LOG('decoded component %s, effective tag set %s' % (_printable(component), effectiveTagSet))
 
         asn1Object.setComponentByType(
             effectiveTagSet, component,
@@ -1254,7 +1264,7 @@ class ChoicePayloadDecoder(ConstructedPayloadDecoderBase):
 
                 if LOG:
                     LOG('decoded component %s, effective tag set '
-                        '%s' % (component, effectiveTagSet))
+                        '%s' % (_printable(component), effectiveTagSet))
 
                 asn1Object.setComponentByType(
                     effectiveTagSet, component,
